@@ -13,6 +13,9 @@ type verifServerHooks struct {
 	TolerateCookieEcho        bool
 	ForceCurveTLS12           CurveID
 	ClientEncryptedExtensions func(raw []byte)
+	KyberDraftTLS13           bool
 }
 
 func verifServerHook(c *Conn) *verifServerHooks { return nil }
+
+func verifKyberDraftKeyExchange(hs *serverHandshakeStateTLS13) error { return nil }
